@@ -308,9 +308,18 @@ class Tensor:
     def __copy__(self) -> Self:
         return self.copy()
 
+    def _with_index_types(self, array: np.ndarray) -> Tensor:
+        # wrap the result of an elementwise operation, keeping the index types of this tensor
+        # (axes added in front by broadcasting are free indices)
+        offset = array.ndim - self.rank
+        result = Tensor(array, copy=False)
+        result._covariant_indices = {i + offset for i in self._covariant_indices}
+        result._contravariant_indices = {i + offset for i in self._contravariant_indices}
+        return result
+
     def __mul__(self, other: Tensor | npt.ArrayLike) -> Tensor:
         if is_numerical_scalar(other):
-            return Tensor(self.array * other, covariant=self._covariant_indices, copy=False)  # type: ignore[operator]
+            return self._with_index_types(self.array * other)  # type: ignore[operator]
         if not isinstance(other, Tensor):
             other = Tensor(other, copy=False)
         return TensorDiagram((other, self)).calculate()
@@ -340,13 +349,13 @@ class Tensor:
 
     def __truediv__(self, other: Tensor | npt.ArrayLike) -> Tensor:
         if is_numerical_scalar(other):
-            return Tensor(self.array / other, covariant=self._covariant_indices, copy=False)  # type: ignore[operator]
+            return self._with_index_types(self.array / other)  # type: ignore[operator]
         return NotImplemented
 
     def __add__(self, other: Tensor | npt.ArrayLike) -> Tensor:
         if isinstance(other, Tensor):
             other = other.array
-        return Tensor(self.array + other, covariant=self._covariant_indices, copy=False)  # type: ignore[operator]
+        return self._with_index_types(self.array + other)  # type: ignore[operator]
 
     def __radd__(self, other: Tensor | npt.ArrayLike) -> Tensor:
         return self + other
@@ -354,7 +363,7 @@ class Tensor:
     def __sub__(self, other: Tensor | npt.ArrayLike) -> Tensor:
         if isinstance(other, Tensor):
             other = other.array
-        return Tensor(self.array - other, covariant=self._covariant_indices, copy=False)  # type: ignore[operator]
+        return self._with_index_types(self.array - other)  # type: ignore[operator]
 
     def __rsub__(self, other: Tensor | npt.ArrayLike) -> Tensor:
         return -self + other
